@@ -72,7 +72,50 @@ def h_recover(ctx, skeleton, edit, followup, args=None, twice=False, n=2, storag
     compare_live_fresh(ctx, objs, spec2, env2, f"later edit of {followup['obj']}.{followup['param']} after recovering {o}.{param}")
 
 
-HARNESSES = {"recover": h_recover}
+def h_recover_link(ctx, case, followup, n=2):
+    """a *link* edit whose recomputation raises (a heavy job added to an on-premise server with a fixed count)"""
+    spec = M.T5(n, type1="on-premise", type2="serverless", fixed1=40)
+    spec["jobs"]["heavy"] = {"server": "srv"}
+    spec["steps"]["step_h"] = {"jobs": ["heavy"]}
+    sym = traffic_syms(spec)
+    sym["heavy.ram_needed"] = dict(lo=0, hi=10 ** 9, nice=(10 ** 5, 10 ** 8))
+    sym.update(collect_slots(spec, [followup]))
+    env0 = M.Env(ctx, symbolic=sym)
+    objs = M.build(spec, env0)
+    V.observe_system(ctx, objs, "0.")
+    before = S.snapshot(objs)
+    edits = {"append_job": (lambda: objs["step"].jobs.append(objs["heavy"]), lambda: setattr(objs["step"], "jobs", [objs["job"], objs["job2"]])),
+             "assign_jobs": (lambda: setattr(objs["step"], "jobs", [objs["heavy"], objs["job"], objs["job2"]]), lambda: setattr(objs["step"], "jobs", [objs["job"], objs["job2"]])),
+             "append_step": (lambda: objs["uj"].uj_steps.append(objs["step_h"]), lambda: setattr(objs["uj"], "uj_steps", [objs["step"]]))}
+    do, undo = edits[case]
+    try:
+        do()
+    except ValueError:
+        pass
+    else:
+        ctx.require(True, "edit accepted on this path (no failure to recover from)")
+        return
+    try:
+        undo()
+    except Exception as e:  # noqa
+        ctx.require(False, f"re-assigning the previous list after the failed {case} works", f"{type(e).__name__}: {str(e)[:160]}")
+        raise
+    # '#active_containers' counts wrapper registrations (internal multiplicity; the leftover registered copy of a refused
+    # list mutation is known finding R2 of C14/C16): the observable reverse links are compared by C16
+    S.compare_snapshots(ctx, before, S.snapshot(objs), f"after failed {case} and re-assignment", identity=False, values=True,
+                        graph=False, skip_attrs=("#active_containers",))
+    e2 = resolve(ctx, env0, env0, spec, followup, 9)
+    try:
+        spec2, env2 = E.apply(objs, spec, env0, e2)
+    except ValueError:
+        raise
+    except Exception as e:  # noqa
+        ctx.require(False, f"a later valid edit works after recovering from the failed {case}", f"{type(e).__name__}: {str(e)[:160]}")
+        raise
+    compare_live_fresh(ctx, objs, spec2, env2, f"later edit after recovering from the failed {case}")
+
+
+HARNESSES = {"recover": h_recover, "recover_link": h_recover_link}
 FIX = dict(obj="srv", param="fixed_nb_of_instances", k="num", range=dict(lo=0, lo_strict=True, hi=10 ** 6, nice=(1, 60)))
 STFIX = dict(obj="st", param="fixed_nb_of_instances", k="num", range=dict(lo=0, lo_strict=True, hi=10 ** 6, nice=(1, 60)))
 NEGSTORE = dict(obj="job", param="data_stored", k="num", range=dict(lo=-10 ** 9, hi=10 ** 9, nice=(-10 ** 6, 10 ** 6)))
@@ -91,7 +134,10 @@ def plan(tier, seed):
          ("recover", dict(skeleton="T1", storage_fixed=30, edit=num("st", "storage_capacity"), followup=num("job", "data_transferred"))),
          ("recover", dict(skeleton="T1", small_base=True, edit=NEGSTORE, followup=num("job", "data_transferred"))),
          ("recover", dict(skeleton="T1", edit=num("srv", "base_ram_consumption"), followup=num("srv", "base_ram_consumption"), twice=True)),
-         ("recover", dict(skeleton="T5", args=T5f, edit=FIX, followup=num("srv", "ram"), twice=True))]
+         ("recover", dict(skeleton="T5", args=T5f, edit=FIX, followup=num("srv", "ram"), twice=True)),
+         ("recover_link", dict(case="append_job", followup=num("job", "data_transferred"))),
+         ("recover_link", dict(case="assign_jobs", followup=num("job2", "ram_needed"))),
+         ("recover_link", dict(case="append_step", followup=num("dev", "power")))]
     if tier == "thorough":
         for sk, a in (("T3", None), ("T9", None), ("T7", None)):
             for ed, fu in ((num("srv", "base_ram_consumption"), num("job", "data_transferred")), (num("srv", "ram"), num("dev", "power")),
